@@ -1,14 +1,66 @@
 """C17 — Plots place each datum at the cell of its own time or bin, in its own colour.
 
-Model: lean/Ladybug/Model/Plot.lean (on Model/AP.lean, Model/Cal.lean); theorems: lean/Ladybug/Props/C17.lean
-(lemmas: Proofs/C17Lemmas.lean); driver: drv_c17.  Tie: correspondence (C) on the ops below.
+Model: lean/Ladybug/Model/Plot.lean (pure placement functions, on Model/AP.lean, Model/Cal.lean) and
+lean/Ladybug/Model/PlotObj.lean (round 3: object state machines of WindRose, MonthlyChart,
+PsychrometricChart with their lazily filled slots); theorems: lean/Ladybug/Props/C17.lean (lemmas:
+Proofs/C17Lemmas|C17Hist|C17Bars|C17Rev|C17Obj.lean); driver: drv_c17.  Tie: correspondence (C).
 
 The model describes hourlyplot.py / monthlychart.py WITH fixes/C17_hourlyplot_num_y.patch,
-fixes/C17_hourlyplot_reverse_by_doy.patch and fixes/C17_daily_bars_first_month.patch applied.
+fixes/C17_hourlyplot_reverse_by_doy.patch and fixes/C17_daily_bars_first_month.patch applied (all three
+are committed in /repo).
+
+Round 3 (histories, failure paths, process order, rare classes)
+---------------------------------------------------------------
+State of the anchored classes:
+  * WindRose: setters frequency_hours, frequency_intervals_compass, show_zeros, show_freq, north, base_point,
+    frequency_spacing_distance, legend_parameters (all with assertions); lazy slots _prevailing_direction
+    (never reset), _bin_vectors, _zeros_per_bin, _container, _compass, _poly_array;
+  * MonthlyChart: set_minimum_by_index / set_maximum_by_index edit _minimums / _maximums (bad index ignored);
+  * PsychrometricChart: lazy _colored_mesh, _data_points, _chart_border ...; data_mesh(collection) asserts
+    the length; legend_parameters is an editable object;
+  * HourlyPlot: no setter; values / colors / colored_mesh2d are recomputed on every read; the only editable
+    thing is the legend_parameters object (min / max / colors) that colours the faces (its setters refuse a
+    non-number, min > max, a string or a single colour: after /repo b8550a8 a refused colour list stores nothing).
+Histories (ops `whist`, `bhist`, `phist`, `hhist`): generated operation lists on ONE object - reads in random
+order and repeated, every public setter between reads, refused calls (values the validation code rejects:
+0 / negative / strings / wrong types / wrong lengths / indices outside the chart) followed by further
+reads, a final sweep over every observable in random order, the same question asked twice.  Each step is
+compared with the Lean object state machine (correspondence) and judged by the oracle: every observable
+the property speaks about must be what the statement requires for the PUBLIC STATE ESTABLISHED SO FAR
+(tracked by the harness from the accepted calls only); a refused call changes nothing.
+Process order (op `order`): a slice of the whole oracle stream (plain cases and histories) is evaluated in
+3 (thorough / searching: 4) fresh interpreters in different orders - rare classes first (refused calls,
+leap, wrapping, sub-hourly, overnight, reversed, single samples, odd direction counts, IP / daily charts),
+the reverse, shuffled; pairs that differ only in year kind / timestep are adjacent.  A failure that needs
+its predecessors is reported as {"order": [...]} (shrunk) and replayed in a fresh interpreter.
+
+Consumers of every modelled producer (each is exercised by correspondence and / or oracle):
+  * HourlyPlot grid + face pattern (_num_x, _num_y, _compute_colored_mesh2d): colored_mesh2d (hp, hhist),
+    colored_mesh3d (hhist), chart_border2d (hp: grid size); per-day reversal: values, colors (hp, hhist);
+    container.value_colors / legend.color_range: colours of colored_mesh2d / 3d, colors (hp, hhist)
+  * histogram_circular: WindRose._compute_windrose_data -> _histogram_data (wrose, whist),
+    WindRose.prevailing_direction_from_data (whist `static`), BaseCollection.histogram_circular (circ)
+  * histogram: BaseCollection.histogram (hist); WindRose._histogram_data_nested (touched by whist `mesh`)
+  * WindRose._histogram_data: histogram_data, prevailing_direction, real_freq_max,
+    frequency_intervals_mesh, frequency_maximum (whist reads), zero_count; container / colored_mesh /
+    windrose_lines / frequency_lines / orientation_lines / color_range / compass (whist touches: they must
+    not disturb the reads)
+  * MonthlyChart _horizontal_bar_count / _is_cumulative / _minimums / _maximums: _compute_monthly_bars and
+    _compute_daily_bars through data_meshes (bars, mbars, dbars, bhist)
+  * PsychrometricChart binning loop (twice in the source): _compute_hour_values -> time_matrix,
+    hour_values, colored_mesh faces (psych, psych2, phist); data_mesh (phist `data`)
+Rare classes counted as strata (`stratum:*`, `hp:*`, `wrose:*` counters in evidence): all 12 valid timesteps,
+leap, year-wrapping, overnight and st>0..23 windows, single-datum and single-day plots, immutable twins of
+the inputs, discontinuous wind data with 1-5 samples, all-calm wind data, direction counts 1..36, zero /
+negative / reversed axis ranges of bar charts, IP / daily / sub-hourly / constant-input psychrometric charts.
 """
 import contextlib
 import io
+import json
 import math
+import os
+import subprocess
+import sys
 from datetime import datetime, timedelta
 from fractions import Fraction
 
@@ -17,11 +69,11 @@ from harness.core import compare_batch, err_name, run_oracle_cases
 
 PROP = 'C17'
 PROOF_MODULES = ['Ladybug.Props.C17']
-GREP_MODULES = ['Ladybug.Model.Plot', 'Ladybug.Proofs.C17Lemmas', 'Ladybug.Proofs.C17Hist', 'Ladybug.Proofs.C17Bars',
+GREP_MODULES = ['Ladybug.Model.Plot', 'Ladybug.Model.PlotObj', 'Ladybug.Proofs.C17Obj', 'Ladybug.Proofs.C17Lemmas', 'Ladybug.Proofs.C17Hist', 'Ladybug.Proofs.C17Bars',
                 'Ladybug.Proofs.C17Rev', 'Ladybug.Drv.C17', 'Ladybug.Model.AP',
                 'Ladybug.Model.Cal', 'Ladybug.Py', 'Ladybug.DrvCore']
 RULE = ('correspondence: hourly plots over analysis periods (partial, year-wrapping, hour windows incl. overnight '
-        'and st>0..23, timesteps 1/2/3/4/6, leap) x data (continuous | whole windowed period | sparse subsets '
+        'and st>0..23, all 12 valid timesteps, leap) x data (continuous | whole windowed period | sparse subsets '
         'incl. same day-of-month in several months) x reverse_y x dyadic cell sizes/base points, values = '
         'distinct ids; histogram / histogram_circular on value lists with samples on the edges and outside; '
         'wind roses for direction counts 1..36 with samples on sector edges, 0/360 and calm speeds; monthly '
@@ -29,8 +81,13 @@ RULE = ('correspondence: hourly plots over analysis periods (partial, year-wrapp
         'psychrometric charts (SI) with hours on cell edges and outside the chart.  oracle: the statement '
         'evaluated on the real objects (face centroid/colour vs day column and time row of the datum, sector '
         'membership by modular arithmetic on Fractions, bin edges, bar columns and affine heights, cell counts '
-        'by brute force).  A case is non-trivial when the implementation returns a plot (not an error); '
-        'distinct = distinct (op, input).')
+        'by brute force).  Round 3: operation histories on one WindRose / MonthlyChart / PsychrometricChart / '
+        'HourlyPlot (reads in random order and repeated, every setter, refused calls, final sweep) compared step '
+        'by step with the Lean object state machines and judged by the oracle against the public state '
+        'established so far; a slice of the oracle stream re-run in 3-4 fresh interpreters in different orders '
+        '(rare classes first); psychrometric IP / daily / sub-hourly / constant-input charts, discontinuous and '
+        'all-calm wind data, immutable input twins.  A case is non-trivial when the implementation returns a '
+        'plot (not an error); distinct = distinct (op, input).')
 TRUSTED_BASE = [
     'ladybug_geometry: Mesh2D.from_grid face order (column-major), remove_faces_only, colors setter, Mesh2D '
     'vertices/faces of bar and psychrometric meshes - exercised (not verified) by every hp/mbars/dbars/psych '
@@ -46,7 +103,7 @@ ASSUMPTIONS = [
     'the three C17 fix commits (259e666, 9d435cd, 0d57465) are in the checked tree',
     'psychrometric chart: SI only in the model (IP temperature categories are float-accumulated; oracle only)',
 ]
-LEVEL_TEXT = ('Machine-checked Lean 4 theorems (19) over an executable model of the data placement of HourlyPlot, '
+LEVEL_TEXT = ('Machine-checked Lean 4 theorems (33) over an executable model of the data placement of HourlyPlot, '
               'histogram/histogram_circular, WindRose, MonthlyChart bars and PsychrometricChart cells, for all inputs '
               'of each clause: the hourly mesh of a non-wrapping period (any hour window incl. overnight, all 12 '
               'timesteps, leap or not; continuous, windowed and sparse data; y axis normal and reversed) has one face '
@@ -55,22 +112,29 @@ LEVEL_TEXT = ('Machine-checked Lean 4 theorems (19) over an executable model of 
               'half-open edges and their sizes add up; every wind-rose sample is counted once (sector counts + calms = '
               'samples, for every direction count) and the prevailing direction is the arg-max set; bar heights are '
               'affine in the value and monthly/daily bars stand in the column of their month (any start day); '
-              'psychrometric cells count exactly their own hours and sum to the on-chart hours. The model is compared '
+              'psychrometric cells count exactly their own hours and sum to the on-chart hours. For the classes with '
+              'state (WindRose, PsychrometricChart, MonthlyChart) an object state machine with the lazy slots of the '
+              'code is modelled and it is proved that after ANY operation history (reads in any order, setters, '
+              'refused calls) every answer is that of a fresh object built from the public state established so far, '
+              'that refused calls change nothing and that reads are pure and commute. The model is compared '
               'with the real classes (mesh faces, centroids, values, bins, bar vertices, cell counts) on '
               'boundary-biased generated inputs on every run, and the whole statement is evaluated on the real objects '
-              'by an independent oracle.')
+              'by an independent oracle; operation histories on one object are compared step by step and a slice of '
+              'the oracle stream is re-run in fresh interpreters in different orders.')
 LEVEL_NOTE = ('Trusted: Lean kernel; axioms propext/Classical.choice/Quot.sound only; the correspondence run '
               '(agreement on generated inputs only); ladybug_geometry mesh conventions; exact-rational model of float '
               'formulas (compared within 1e-9; float `d % 360.0` is outside the model); C04 characterisation of '
               'AnalysisPeriod.moys and the C13 validation post-condition (data date-times are a chronological sub-list '
               'of the period). NOT proved, only compared and oracle-checked: year-wrapping periods of the hourly plot, '
               'the IP psychrometric chart, histogram_circular with hist_range=None, bar_count staying below the '
-              'horizontal bar count (hypothesis of the column theorems). Two open findings are listed in '
+              'horizontal bar count (hypothesis of the column theorems), the drawing geometry of the wind rose '
+              '(colored_mesh, lines: only touched inside histories). Three open findings are listed in '
               'known_findings.d/C17.json.')
 TECHNIQUE = ('Lean 4 proof (list induction, sorted-list uniqueness on the C04 characterisation of moys, omega, linarith) about '
              'a hand model tied to the plot classes by differential correspondence on mesh faces and bins')
 
 STEP_TS = (1, 2, 3, 4, 6)
+ALL_TS = (1, 2, 3, 4, 5, 6, 10, 12, 15, 20, 30, 60)
 
 
 # ---------------------------------------------------------------------------------------------
@@ -145,7 +209,8 @@ def period_moys(ap):
 
 def _rand_ap(rng, kind=None):
     leap = rng.random() < 0.3
-    ts = rng.choice(STEP_TS) if rng.random() < 0.6 else 1
+    q = rng.random()
+    ts = rng.choice(STEP_TS) if q < 0.5 else rng.choice(ALL_TS) if q < 0.62 else 1
     kind = kind or rng.choice(['plain', 'plain', 'window', 'window23', 'overnight', 'wrap', 'wrapwin', 'day'])
     ndays = 366 if leap else 365
     d0 = rng.randrange(ndays)
@@ -153,9 +218,11 @@ def _rand_ap(rng, kind=None):
         ln = 1
     else:
         ln = rng.choice([1, 2, 3, 5, 8, 31, 32]) if rng.random() < 0.85 else rng.randrange(1, 60)
+    if ts > 6:
+        ln = min(ln, rng.choice([1, 2, 3]))     # every valid timestep, on short periods
     if kind in ('wrap', 'wrapwin'):
-        d0 = ndays - rng.choice([1, 2, 3, 10])
-        ln = ndays - d0 + rng.choice([1, 2, 5])
+        d0 = ndays - rng.choice([1, 2, 3, 10] if ts <= 6 else [1, 2])
+        ln = ndays - d0 + rng.choice([1, 2, 5] if ts <= 6 else [1])
     elif d0 + ln > ndays:
         d0 = ndays - ln
     a = datetime(_year(leap), 1, 1) + timedelta(days=d0)
@@ -208,9 +275,12 @@ def _hp_case(rng, cont=None):
     else:
         ap = _rand_ap(rng)
         moys = _sparse(rng, period_moys(ap))
-    return {'cont': cont, 'rev': rng.random() < 0.5, 'ap': ap, 'moys': moys,
-            'xdim': rng.choice([1, 2, 0.5, 3]), 'ydim': rng.choice([4, 1, 0.25, 2]),
-            'base': [rng.choice([0, 0, 10, -7]), rng.choice([0, 0, -3, 100])]}
+    c = {'cont': cont, 'rev': rng.random() < 0.5, 'ap': ap, 'moys': moys,
+         'xdim': rng.choice([1, 2, 0.5, 3]), 'ydim': rng.choice([4, 1, 0.25, 2]),
+         'base': [rng.choice([0, 0, 10, -7]), rng.choice([0, 0, -3, 100])]}
+    if rng.random() < 0.2:
+        c['imm'] = True                           # the immutable twin of the collection
+    return c
 
 
 def _same_day_number_case(rng, rev=True):
@@ -279,6 +349,8 @@ def _build_hp(case, legend_par=None):
         coll = HourlyDiscontinuousCollection.from_dict({
             'header': hdr.to_dict(), 'values': list(range(len(arrs))), 'datetimes': arrs,
             'validated_a_period': True, 'type': 'HourlyDiscontinuous'})
+    if case.get('imm'):
+        coll = coll.to_immutable()
     return HourlyPlot(coll, legend_par, Point3D(case['base'][0], case['base'][1], 0), case['xdim'],
                       case['ydim'], 0, case['rev'])
 
@@ -435,7 +507,20 @@ def _wr_case(rng, n=None):
         q = rng.random()
         spd.append(0.0 if q < 0.15 else 1e-11 if q < 0.2 else 1e-10 if q < 0.25 else 2e-10 if q < 0.3
                    else -1.0 if q < 0.33 else round(rng.uniform(0.1, 20), 1))
-    return {'n': n, 'speed': rng.random() < 0.8, 'dirs': dirs, 'spd': spd, 'days': days}
+    c = {'n': n, 'speed': rng.random() < 0.8, 'dirs': dirs, 'spd': spd, 'days': days}
+    q = rng.random()
+    if q < 0.12:                                  # discontinuous collections with few samples (1, 2, 5 ...)
+        k = rng.choice([1, 1, 2, 3, 5])
+        hrs = sorted(rng.sample(range(cnt), k))
+        c['sparse'] = hrs
+        c['dirs'] = [dirs[h] for h in hrs]
+        c['spd'] = [spd[h] for h in hrs]
+    elif q < 0.17:                                # nothing but calm hours
+        c['speed'] = True
+        c['spd'] = [rng.choice([0.0, 1e-11, 1e-10]) for _ in spd]
+    if rng.random() < 0.2:
+        c['imm'] = True                           # immutable twins of the input collections
+    return c
 
 
 def _wr_line(c):
@@ -453,11 +538,20 @@ def _build_wr(c):
     from ladybug.datatype.temperature import Temperature
     from ladybug.windrose import WindRose
     ap = AnalysisPeriod(1, 1, 0, 1, c['days'], 23)
+    atype, aunit = (Speed(), 'm/s') if c['speed'] else (Temperature(), 'C')
+    if c.get('sparse'):                          # discontinuous collections: any number of samples (>= 1)
+        from ladybug.datacollection import HourlyDiscontinuousCollection
+        from ladybug.dt import DateTime
+        dts = [DateTime(1, 1 + h // 24, h % 24) for h in c['sparse']]
+        dcol = HourlyDiscontinuousCollection(Header(Angle(), 'degrees', ap), list(c['dirs']), dts)
+        acol = HourlyDiscontinuousCollection(Header(atype, aunit, ap), list(c['spd']), list(dts))
+        if c.get('imm'):
+            dcol, acol = dcol.to_immutable(), acol.to_immutable()
+        return WindRose(dcol, acol, c['n'])
     dcol = HourlyContinuousCollection(Header(Angle(), 'degrees', ap), list(c['dirs']))
-    if c['speed']:
-        acol = HourlyContinuousCollection(Header(Speed(), 'm/s', ap), list(c['spd']))
-    else:
-        acol = HourlyContinuousCollection(Header(Temperature(), 'C', ap), list(c['spd']))
+    acol = HourlyContinuousCollection(Header(atype, aunit, ap), list(c['spd']))
+    if c.get('imm'):
+        dcol, acol = dcol.to_immutable(), acol.to_immutable()
     return WindRose(dcol, acol, c['n'])
 
 
@@ -709,6 +803,891 @@ def compare_numeric(ctx, op, cases, model_line, impl_fn, key=None):
         ctx.sample({'op': op, 'request': lines[0][:300], 'model': outs[0][:300]})
 
 
+
+# ---------------------------------------------------------------------------------------------
+# Round 3: operation histories on ONE object (reads in any order and repeated, every public setter,
+# refused calls) for the classes with state.  Every history is (i) compared step by step with the
+# object state machines of Model/PlotObj.lean (driver ops whist / bhist / phist; the hourly plot has
+# no state that enters its observables, its model stays `hp`) and (ii) judged by the oracle: after
+# every step each observable the property speaks about must be what the statement requires for the
+# public state the user has established; a refused call changes nothing.
+
+
+def _exc_tok(e):
+    return 'err:' + err_name(e)
+
+
+# ---- WindRose histories
+
+WR_READS = ('hist', 'zero', 'prev', 'rmax', 'rmesh', 'rfmax', 'static')
+WR_TOUCH = ('mesh', 'lines', 'legend', 'compass', 'freq_lines', 'orient_lines', 'color_range')
+_WR_READ_TOK = {'hist': 'rhist', 'zero': 'rzero', 'prev': 'rprev', 'rmax': 'rmax', 'rmesh': 'rmesh',
+                'rfmax': 'rfmax', 'static': 'rstatic'}
+
+
+def _wr_set_op(rng, speed):
+    """One setter call [kind='set', attribute, value]; about a third are values the code must refuse."""
+    q = rng.random()
+    if q < 0.3:
+        v = rng.choice([1, 1, 2, 3, 5, 7, 10, 24, 200, 2.5, 0, -1, -3, 'a'])
+        return ['set', 'frequency_hours', v]
+    if q < 0.6:
+        v = rng.choice([1, 1, 1, 2, 2, 3, 4, 6, 50, 0, -2, 'a'])
+        return ['set', 'frequency_intervals_compass', v]
+    if q < 0.7:
+        return ['set', 'show_zeros', rng.random() < 0.5]
+    if q < 0.76:
+        return ['set', 'show_freq', rng.random() < 0.5]
+    if q < 0.82:
+        return ['set', 'north', rng.choice([0, 45, 90.5, -30, 'a'])]
+    if q < 0.88:
+        return ['set', 'base_point', rng.choice([[0, 0], [5, -3], 'a'])]
+    if q < 0.94:
+        return ['set', 'frequency_spacing_distance', rng.choice([10, 1, 2.5, 0, -1, 'a'])]
+    return ['set', 'legend_parameters', rng.choice(['none', 'lp', 'lp_minmax', 5])]
+
+
+def _wr_history(rng, speed, n):
+    ops = []
+    style = rng.choice(['set-first', 'read-first', 'mixed', 'mixed', 'refused-first'])
+    if style == 'set-first':
+        ops.append(['set', 'frequency_hours', rng.choice([1, 2, 3, 5])])
+        ops.append(['set', 'frequency_intervals_compass', rng.choice([1, 1, 2, 3])])
+    elif style == 'read-first':
+        for r in rng.sample(WR_READS, rng.choice([1, 2, 7])):
+            ops.append(['read', r])
+    elif style == 'refused-first':
+        ops.append(['set', rng.choice(['frequency_hours', 'frequency_intervals_compass']), rng.choice([0, -1, 'a'])])
+    for _ in range(rng.choice([2, 4, 6, 9])):
+        q = rng.random()
+        if q < 0.45:
+            ops.append(_wr_set_op(rng, speed))
+        elif q < 0.85:
+            ops.append(['read', rng.choice(WR_READS)])
+        else:
+            ops.append(['touch', rng.choice(WR_TOUCH)])
+    sweep = list(WR_READS)
+    rng.shuffle(sweep)
+    ops += [['read', r] for r in sweep]          # final sweep: every observable, random order
+    if rng.random() < 0.4:
+        ops += [['read', r] for r in rng.sample(WR_READS, 3)]      # the same question asked twice
+    return ops
+
+
+def _wrh_case(rng, n=None, big=False):
+    c = _wr_case(rng, n)
+    if big:                                       # many samples in few sectors: the cut is reachable
+        k = rng.choice([1, 2, 3])
+        sect = 360.0 / c['n']
+        c['dirs'] = [float((rng.randrange(k) * sect) % 360.0) for _ in c['dirs']]
+        c['spd'] = [float(rng.choice([1, 2, 3, 4.5, 0.0]) if rng.random() < 0.9 else 0.0) for _ in c['spd']]
+    c['ops'] = _wr_history(rng, c['speed'], c['n'])
+    return c
+
+
+def _wr_model_op(op, speed):
+    """Driver token(s) of one operation; None for operations outside the model (touches)."""
+    kind = op[0]
+    if kind == 'read':
+        return _WR_READ_TOK[op[1]]
+    if kind == 'touch':
+        return None
+    attr, v = op[1], op[2]
+    if attr in ('frequency_hours', 'frequency_intervals_compass'):
+        if isinstance(v, str):
+            return 'badtype'
+        return '%s %d' % ('fh' if attr == 'frequency_hours' else 'fic', int(v))
+    if attr == 'show_zeros':
+        return 'zeros ' + _b(v)
+    if attr == 'show_freq':
+        return 'freq ' + _b(v)
+    if attr == 'north':
+        return 'other ' + _b(not isinstance(v, str))
+    if attr == 'base_point':
+        return 'other ' + _b(not isinstance(v, str))
+    if attr == 'frequency_spacing_distance':
+        return 'badtype' if isinstance(v, str) else 'other ' + _b(v > 0)
+    if attr == 'legend_parameters':
+        return 'other ' + _b(v != 5)
+    raise ValueError(attr)
+
+
+def _wrh_line(c):
+    red = [d % 360.0 for d in c['dirs']]
+    toks = [t for t in (_wr_model_op(op, c['speed']) for op in c['ops']) if t is not None]
+    return 'whist %d %s %d %s %d %s' % (c['n'], _b(c['speed']), len(red),
+                                        ' '.join('%s %s' % (_fr(d), _fr(v)) for d, v in zip(red, c['spd'])),
+                                        len(toks), ' '.join(toks))
+
+
+def _wr_value(attr, v):
+    if attr == 'base_point' and isinstance(v, list):
+        from ladybug_geometry.geometry2d.pointvector import Point2D
+        return Point2D(v[0], v[1])
+    if attr == 'legend_parameters':
+        from ladybug.legend import LegendParameters
+        return {'none': None, 'lp': LegendParameters(), 'lp_minmax': LegendParameters(min=0, max=10),
+                5: 5}[v]
+    return v
+
+
+def _wr_read(wr, name, n):
+    from ladybug.windrose import WindRose
+    if name == 'hist':
+        return ('hist', [list(b) for b in wr.histogram_data])
+    if name == 'zero':
+        return ('nat', wr.zero_count)
+    if name == 'prev':
+        return ('dirs', list(wr.prevailing_direction))
+    if name == 'rmax':
+        return ('nat', wr.real_freq_max)
+    if name == 'rmesh':
+        return ('nat', wr.frequency_intervals_mesh)
+    if name == 'rfmax':
+        v = wr.frequency_maximum
+        return ('nat', int(v) if float(v) == int(v) else v)
+    if name == 'static':
+        return ('dirs', list(WindRose.prevailing_direction_from_data(wr.direction_data_collection, n)))
+    raise ValueError(name)
+
+
+def _wr_touch(wr, name):
+    try:
+        if name == 'mesh':
+            wr.colored_mesh
+        elif name == 'lines':
+            wr.windrose_lines
+        elif name == 'legend':
+            wr.legend
+        elif name == 'compass':
+            wr.compass
+        elif name == 'freq_lines':
+            wr.frequency_lines
+        elif name == 'orient_lines':
+            wr.orientation_lines
+        elif name == 'color_range':
+            wr.color_range
+    except Exception:
+        pass                                      # drawing may be impossible (n < 3, no data); not C17's subject
+
+
+def _wr_run(c):
+    """Execute the history on one real WindRose: list of (op, outcome) with outcome
+    ('ok',) | ('err', name, text) | (kind, value)."""
+    wr = _build_wr(c)
+    out = []
+    for op in c['ops']:
+        try:
+            if op[0] == 'read':
+                out.append(_wr_read(wr, op[1], c['n']))
+            elif op[0] == 'touch':
+                _wr_touch(wr, op[1])
+                out.append(None)
+            else:
+                setattr(wr, op[1], _wr_value(op[1], op[2]))
+                out.append(('ok',))
+        except Exception as e:
+            out.append(('err', err_name(e), '%s: %s' % (type(e).__name__, str(e)[:80])))
+    return out
+
+
+def _wr_show(o):
+    if o[0] == 'ok':
+        return 'ok'
+    if o[0] == 'err':
+        return 'err:' + o[1]
+    if o[0] == 'hist':
+        return 'hist ' + ' '.join('| ' + ' '.join(_fr(v) for v in b) for b in o[1])
+    if o[0] == 'nat':
+        return 'nat %s' % (o[1],)
+    return 'dirs ' + ' '.join(_fr(v) for v in o[1])
+
+
+def _wrh_impl(c):
+    outs = [o for o in _wr_run(c) if o is not None]
+    return 'ok ; ' + ' ; '.join(_wr_show(o) for o in outs)
+
+
+def _wr_sectors(inp):
+    """Sector of every sample by exact modular arithmetic (None when a sample sits on an edge of an
+    inexact sector).  Returns (lists of analysis values per sector, calm count)."""
+    n = inp['n']
+    exact = n in EXACT_N
+    want = [[] for _ in range(n)]
+    calm = 0
+    for d, v in zip(inp['dirs'], inp['spd']):
+        if inp['speed'] and not v > 1e-10:
+            calm += 1
+            continue
+        fd = Fraction(d % 360.0)
+        if fd >= 360:
+            return None                            # tiny negative direction (known finding, fresh-object oracle)
+        x = (fd + Fraction(180, n)) / Fraction(360, n)
+        if not exact and abs(x - round(x)) < Fraction(1, 10 ** 6):
+            return None
+        want[int(math.floor(x)) % n].append(v)
+    return want, calm
+
+
+def _is_num(v):
+    return isinstance(v, (int, float)) and not isinstance(v, bool)
+
+
+def _check_whist(inp):
+    """The wind-rose clauses of C17 after every step of a history on one object."""
+    n = inp['n']
+    sig = {'speed': bool(inp['speed'])}
+    sc = _wr_sectors(inp)
+    if sc is None:
+        return None
+    want, calm = sc
+    counts = [len(b) for b in want]
+    mx = max(counts)
+    arg = [i * 360.0 / n for i in range(n) if counts[i] == mx]
+    # prevailing_direction_from_data bins every direction sample (calm or not)
+    sc_all = _wr_sectors(dict(inp, speed=False))
+    if sc_all is None:
+        return None
+    call = [len(b) for b in sc_all[0]]
+    arg_all = [i * 360.0 / n for i in range(n) if call[i] == max(call)]
+    try:
+        outs = _wr_run(inp)
+    except Exception as e:
+        return {'required': 'a wind rose', 'observed': 'raises %s' % type(e).__name__,
+                'sig': dict(sig, clause='builds', error=type(e).__name__)}
+    fh, fic = None, None                           # the public state established so far
+    for k, (op, o) in enumerate(zip(inp['ops'], outs)):
+        where = 'step %d %s' % (k, json.dumps(op))
+        if op[0] == 'touch':
+            continue
+        if op[0] == 'set':
+            attr, v = op[1], op[2]
+            if o[0] == 'ok':                       # accepted: the user has established the value
+                if attr == 'frequency_hours' and _is_num(v):
+                    fh = int(v)
+                elif attr == 'frequency_intervals_compass' and _is_num(v):
+                    fic = int(v)
+            continue                               # refused: nothing established; the reads below must not move
+        name = op[1]
+        fhv = 200 if fh is None else fh
+        cut = fic is not None and fhv > 0 and fic < int(math.ceil(mx / float(fhv)))
+        if o[0] == 'err':
+            if name in ('hist', 'rmax', 'rmesh', 'rfmax') and cut and fh is None and o[1] == 'type':
+                return {'required': '%s: sector lists cut to %d values' % (where, fic * fhv), 'observed': o[2],
+                        'sig': dict(sig, clause='hist_raises', error='TypeError', default_hours_cut=True)}
+            return {'required': '%s: a value' % where, 'observed': o[2],
+                    'sig': dict(sig, clause='read_raises', read=name, error=o[1])}
+        exp_counts = [min(c, fic * fhv) for c in counts] if cut else counts
+        if name == 'hist':
+            h = o[1]
+            got = [len(b) for b in h]
+            if got != exp_counts:
+                return {'required': '%s: sector counts %s (frequency_hours=%s, intervals=%s)' % (
+                    where, exp_counts, fh, fic), 'observed': str(got), 'sig': dict(sig, clause='h_sector', cut=cut)}
+            for i in range(n):
+                rest = list(want[i])
+                for v in h[i]:
+                    if v in rest:
+                        rest.remove(v)
+                    else:
+                        return {'required': '%s: sector %d holds its own samples' % (where, i),
+                                'observed': 'value %r' % v, 'sig': dict(sig, clause='h_member', cut=cut)}
+            if not cut and sum(got) + calm != len(inp['dirs']):
+                return {'required': '%s: sector counts + calms = %d' % (where, len(inp['dirs'])),
+                        'observed': '%d + %d' % (sum(got), calm), 'sig': dict(sig, clause='h_sum')}
+        elif name == 'zero':
+            if o[1] != calm:
+                return {'required': '%s: %d calms' % (where, calm), 'observed': o[1], 'sig': dict(sig, clause='h_calm')}
+        elif name in ('prev', 'static'):
+            a = arg if name == 'prev' else arg_all
+            pv = o[1]
+            if len(a) != len(pv) or any(abs(x - y) > 1e-9 for x, y in zip(a, pv)):
+                return {'required': '%s: the fullest sector(s) %s (counts %s)' % (where, a, counts if name == 'prev' else call),
+                        'observed': str(pv), 'sig': dict(sig, clause='h_prevailing', read=name)}
+        elif name == 'rmax':
+            if o[1] != max(exp_counts):
+                return {'required': '%s: %d' % (where, max(exp_counts)), 'observed': o[1],
+                        'sig': dict(sig, clause='h_real_max')}
+        elif name == 'rmesh':
+            e = int(math.ceil(max(exp_counts) / float(fhv)))
+            if o[1] != e:
+                return {'required': '%s: %d' % (where, e), 'observed': o[1], 'sig': dict(sig, clause='h_intervals')}
+        elif name == 'rfmax':
+            e = (fic if fic is not None else int(math.ceil(max(exp_counts) / float(fhv)))) * fhv
+            if o[1] != e:
+                return {'required': '%s: %d' % (where, e), 'observed': o[1], 'sig': dict(sig, clause='h_freq_max')}
+    return None
+
+
+WRH_DEFAULT_CUT = {'n': 4, 'speed': True, 'days': 10, 'dirs': [90.0] * 240, 'spd': [2.0] * 240,
+                   'ops': [['read', 'prev'], ['set', 'frequency_intervals_compass', 1], ['read', 'zero'],
+                           ['read', 'prev'], ['read', 'hist']]}
+
+WRH_CORPUS = [
+    # rings limited before the first read of the prevailing direction, limit lifted afterwards
+    {'n': 8, 'speed': True, 'days': 1, 'dirs': [180.0] * 9 + [135.0] * 6 + [225.0] * 5 + [270.0] * 4,
+     'spd': [3.0] * 24,
+     'ops': [['set', 'frequency_hours', 1], ['set', 'frequency_intervals_compass', 4], ['read', 'hist'],
+             ['read', 'prev'], ['set', 'frequency_intervals_compass', 50], ['read', 'prev'], ['read', 'hist'],
+             ['read', 'static'], ['read', 'rmax']]},
+    # refused assignments first, then every observable
+    {'n': 4, 'speed': True, 'days': 1, 'dirs': [0.0, 90.0, 90.0, 359.0] * 6, 'spd': [1.0, 0.0, 2.0, 3.0] * 6,
+     'ops': [['set', 'frequency_hours', 0], ['set', 'frequency_intervals_compass', 0], ['set', 'frequency_hours', 'a'],
+             ['read', 'hist'], ['read', 'zero'], ['read', 'prev'], ['set', 'frequency_hours', 2],
+             ['set', 'frequency_intervals_compass', 2], ['touch', 'mesh'], ['read', 'hist'],
+             ['set', 'frequency_hours', -1], ['read', 'hist'], ['read', 'rmax'], ['read', 'rfmax'],
+             ['read', 'prev']]},
+    {'n': 3, 'speed': False, 'days': 1, 'dirs': [10.0] * 24, 'spd': [0.0] * 12 + [5.0] * 12,
+     'ops': [['set', 'show_zeros', True], ['read', 'zero'], ['read', 'hist'], ['set', 'show_zeros', False],
+             ['read', 'prev'], ['touch', 'lines'], ['read', 'hist']]},
+]
+
+
+# ---- MonthlyChart histories
+
+
+def _bh_case(rng, daily=False):
+    c = _bars_case(rng, daily)
+    ng = len(_bar_groups(c))
+    ops = []
+    if rng.random() < 0.3:
+        ops.append(['read'])
+    for _ in range(rng.choice([2, 3, 5, 8])):
+        q = rng.random()
+        if q < 0.55:
+            kind = rng.choice(['min', 'max'])
+            idx = rng.choice(list(range(ng)) * 3 + [ng, ng + 1, 7, -1, -ng - 1])
+            v = rng.choice([0, 0.0, -50, -100, 5, 0.5, 10, 100, 150.5, 64, 1000])
+            ops.append([kind, float(v), idx])
+        else:
+            ops.append(['read'])
+    ops.append(['read'])
+    if rng.random() < 0.3:
+        ops.append(['read'])
+    c['ops'] = ops
+    return c
+
+
+def _bh_line(c):
+    groups = _bar_groups(c)
+    gs = []
+    for u, ds in groups:
+        lo, hi = c['ranges'][u]
+        gs.append('%s %s %s %d %s' % (_b(_is_cum(u, c['stack'])), _fr(lo), _fr(hi), len(ds),
+                                      ' '.join('%d %s' % (len(d), ' '.join(_fr(v) for v in d)) for d in ds)))
+    head = '%s %s %s %s %s' % (_fr(c['base'][0]), _fr(c['base'][1]), _fr(c['xdim']), _fr(c['ydim']), _b(c['stack']))
+    if c['daily']:
+        leap = c['period'][7]
+        dpm = [_mdays(leap, m) for m in range(c['period'][0], c['period'][3] + 1)]
+        dl = '1 %d %d %s' % (c['period'][1], len(dpm), ' '.join(str(x) for x in dpm))
+    else:
+        dl = '0'
+    toks = []
+    for op in c['ops']:
+        toks.append('read' if op[0] == 'read' else '%s %s %d' % (op[0], _fr(op[1]), op[2]))
+    return 'bhist %s %d %s %d %s %d %s' % (head, _n_bars(c), dl, len(gs), ' '.join(gs), len(toks), ' '.join(toks))
+
+
+def _bh_run(c):
+    mc = _build_chart(c)
+    out = []
+    for op in c['ops']:
+        try:
+            if op[0] == 'read':
+                out.append(('bars', [_mesh_bars(m) for m in mc.data_meshes]))
+            elif op[0] == 'min':
+                mc.set_minimum_by_index(op[1], op[2])
+                out.append(('ok',))
+            else:
+                mc.set_maximum_by_index(op[1], op[2])
+                out.append(('ok',))
+        except Exception as e:
+            out.append(('err', err_name(e), '%s: %s' % (type(e).__name__, str(e)[:80])))
+    return out
+
+
+def _bh_impl(c):
+    res = []
+    for o in _bh_run(c):
+        if o[0] == 'ok':
+            res.append('ok')
+        elif o[0] == 'err':
+            res.append('err:' + o[1])
+        else:
+            res.append('bars ' + ' '.join('| ' + ' '.join(' '.join(_fr(x) for x in b) for b in m) for m in o[1]))
+    return 'ok ; ' + ' ; '.join(res)
+
+
+def _bars_clauses(inp, meshes_bars, ranges, sig, where=''):
+    """Column and affine-height clauses on the bar lists of one read.  `ranges`: per group (min, max) of
+    the axis the user has established (None: not checked)."""
+    bx, xd, yd = inp['base'][0], inp['xdim'], inp['ydim']
+    leap = inp['period'][7]
+    order = []
+    for j, (u, ds) in enumerate(_bar_groups(inp)):
+        order += [(j, u, d) for d in ds]
+    if len(meshes_bars) != len(order):
+        return {'required': '%s%d meshes' % (where, len(order)), 'observed': len(meshes_bars),
+                'sig': dict(sig, clause='shape')}
+    eps = 1e-7 * max(1.0, abs(bx) + xd * 13)
+    for (j, u, data), bars in zip(order, meshes_bars):
+        if len(bars) != len(data):
+            return {'required': '%s%d bars' % (where, len(data)), 'observed': len(bars),
+                    'sig': dict(sig, clause='bar_count')}
+        for k, (x, y0, w, y1) in enumerate(bars):
+            if inp['daily']:
+                d = datetime(_year(leap), inp['period'][0], inp['period'][1]) + timedelta(days=k)
+                col = d.month - inp['period'][0]
+                big = xd / _n_bars(inp)
+                slot = big / _mdays(leap, d.month)
+                off = (x - (bx + col * xd)) % big
+                if not (bx + col * xd - eps <= x and x + w <= bx + (col + 1) * xd + eps) or \
+                        min(abs(off - (d.day - 1) * slot), abs(off - big - (d.day - 1) * slot)) > eps:
+                    return {'required': '%sbar of %d/%d in column %d at day slot %d' % (
+                        where, d.month, d.day, col, d.day - 1), 'observed': 'x=%r w=%r' % (x, w),
+                        'sig': dict(sig, clause='day_column', first_day_is_1=inp['period'][1] == 1)}
+            else:
+                if not (bx + k * xd - eps <= x and x + w <= bx + (k + 1) * xd + eps and w > 0):
+                    return {'required': '%sbar %d inside column %d' % (where, k, k), 'observed': 'x=%r w=%r' % (x, w),
+                            'sig': dict(sig, clause='month_column')}
+        hs = [b[3] - b[1] for b in bars]
+        tol = 1e-7 * (1 + max(abs(h) for h in hs))
+        pts = sorted(zip(data, hs))
+        (v0, h0), (v1, h1) = pts[0], pts[-1]
+        turned = ranges is not None and ranges[j][1] < ranges[j][0]      # the user set minimum > maximum
+        if v1 > v0:
+            slope = (h1 - h0) / (v1 - v0)
+            bad = (slope <= 0 and not turned) or any(abs(h0 + slope * (v - v0) - h) > tol for v, h in pts)
+        else:
+            bad = any(abs(h - h0) > tol for v, h in pts)
+        if bad:
+            return {'required': '%sheights affine and increasing in the values' % where, 'observed': str(pts)[:160],
+                    'sig': dict(sig, clause='affine')}
+        if ranges is not None:
+            # the affine map is the one of the chart's Y axis: `minimum` at the base line, `maximum` y_dim above it
+            mn, mx = ranges[j]
+            dr = (mx - mn) or 1.0
+            cum = _is_cum(u, inp['stack'])
+            for v, h in zip(data, hs):
+                e = yd * (v / dr) if cum else yd * ((v - mn) / dr)
+                if abs(e - h) > 1e-7 * (1 + abs(e) + abs(yd * mn / dr)):
+                    return {'required': '%sbar of value %r is %r high on the axis %r..%r' % (where, v, e, mn, mx),
+                            'observed': repr(h), 'sig': dict(sig, clause='axis_height', cumulative=cum)}
+    return None
+
+
+def _check_bhist(inp):
+    sig = {'daily': bool(inp['daily']), 'stack': bool(inp['stack'])}
+    groups = _bar_groups(inp)
+    ranges = [list(inp['ranges'][u]) for u, _ in groups]
+    try:
+        outs = _bh_run(inp)
+    except Exception as e:
+        return {'required': 'bar meshes', 'observed': 'raises %s: %s' % (type(e).__name__, str(e)[:80]),
+                'sig': dict(sig, clause='builds', error=type(e).__name__)}
+    for k, (op, o) in enumerate(zip(inp['ops'], outs)):
+        where = 'step %d %s: ' % (k, json.dumps(op))
+        if o[0] == 'err':
+            return {'required': where + 'returns', 'observed': o[2], 'sig': dict(sig, clause='op_raises', error=o[1])}
+        if op[0] in ('min', 'max'):
+            i = op[2]
+            if -len(ranges) <= i < len(ranges):    # an index of a data type of the chart (Python indexing)
+                ranges[i][0 if op[0] == 'min' else 1] = op[1]
+            continue                               # any other index is ignored: the axes stay as they were
+        r = _bars_clauses(inp, o[1], ranges, sig, where)
+        if r:
+            return r
+    return None
+
+
+# ---- PsychrometricChart histories
+
+
+def _ph_case(rng):
+    c = _psy_case(rng)
+    nh = len(c['t'])
+    ops = []
+    names = ['matrix', 'hours', 'mesh', 'data', 'data', 'legend', 'data_bad']
+    for _ in range(rng.choice([3, 5, 8])):
+        k = rng.choice(names)
+        if k == 'data':
+            ops.append(['data', [float(rng.choice([0, 1, 2, 5, -3, 10, 0.5, 100])) for _ in range(nh)]])
+        elif k == 'data_bad':
+            ops.append(['data', [1.0] * rng.choice([0, 1, nh - 1, nh + 1])])
+        elif k == 'legend':
+            ops.append(['legend', rng.choice(['min', 'max', 'colors', 'bad_min', 'one_color'])])
+        else:
+            ops.append([k])
+    sweep = [['matrix'], ['hours'], ['mesh'], ['data', [float(i % 7) for i in range(nh)]]]
+    rng.shuffle(sweep)
+    c['ops'] = ops + sweep
+    return c
+
+
+def _ph_line(c):
+    toks = []
+    for op in c['ops']:
+        if op[0] == 'data':
+            toks.append('data %d %s' % (len(op[1]), ' '.join(_fr(v) for v in op[1])))
+        else:
+            toks.append(op[0])
+    return 'phist %d %d %d %s %d %s' % (c['min'], c['max'], len(c['t']),
+                                        ' '.join('%s %s' % (_fr(t), _fr(r)) for t, r in zip(c['t'], c['rh'])),
+                                        len(toks), ' '.join(toks))
+
+
+def _ph_run(c, ch=None):
+    from ladybug.analysisperiod import AnalysisPeriod
+    from ladybug.datacollection import HourlyContinuousCollection
+    from ladybug.header import Header
+    from ladybug.datatype.generic import GenericType
+    from ladybug.color import Color
+    ch = ch or _build_psy(c)
+    out = []
+    for op in c['ops']:
+        try:
+            if op[0] == 'matrix':
+                out.append(('nats', [v for row in ch.time_matrix for v in row]))
+            elif op[0] == 'hours':
+                out.append(('nats', list(ch.hour_values)))
+            elif op[0] == 'mesh':
+                out.append(('faces', _psy_faces(ch, c)))
+            elif op[0] == 'data':
+                n = len(op[1])
+                days = max(1, (n + 23) // 24)
+                if n == 24 * days:
+                    coll = HourlyContinuousCollection(
+                        Header(GenericType('x', 'x'), 'x', AnalysisPeriod(1, 1, 0, 1, days, 23)), list(op[1]))
+                else:
+                    coll = _FakeColl(op[1])
+                mesh, cont = ch.data_mesh(coll)
+                row_len = c['max'] - c['min'] + 1
+                out.append(('means', [(f[0] // row_len, f[0] % row_len) for f in mesh.faces], list(cont.values)))
+            else:
+                lp = ch.legend_parameters
+                if op[1] == 'min':
+                    lp.min = 0
+                elif op[1] == 'max':
+                    lp.max = 1000
+                elif op[1] == 'colors':
+                    lp.colors = [Color(0, 0, 0), Color(255, 0, 0), Color(0, 255, 0)]
+                elif op[1] == 'one_color':
+                    try:
+                        lp.colors = [Color(1, 2, 3)]
+                    except AssertionError:
+                        pass
+                else:
+                    try:
+                        lp.min = 'a'
+                    except AssertionError:
+                        pass
+                out.append(('ok',))
+        except Exception as e:
+            out.append(('err', err_name(e), '%s: %s' % (type(e).__name__, str(e)[:80])))
+    return out
+
+
+class _FakeHeader(object):
+    def __init__(self):
+        from ladybug.datatype.generic import GenericType
+        self.data_type = GenericType('x', 'x')
+        self.unit = 'x'
+
+
+class _FakeColl(object):
+    """A stand-in for a collection of another length (only `.values` / `.header` are read)."""
+
+    def __init__(self, values):
+        self.values = tuple(values)
+        self.header = _FakeHeader()
+
+
+def _ph_impl(c):
+    try:
+        ch = _build_psy(c)
+    except AssertionError:
+        return 'err:assert'
+    res = []
+    for o in _ph_run(c, ch):
+        if o[0] == 'ok':
+            res.append('ok')
+        elif o[0] == 'err':
+            res.append('err:' + o[1])
+        elif o[0] == 'nats':
+            res.append('nats ' + ' '.join(str(int(round(v))) for v in o[1]))
+        elif o[0] == 'faces':
+            res.append('faces ' + ' '.join('%d %d' % f for f in o[1]))
+        else:
+            res.append('means ' + ' '.join('%d %d' % f for f in o[1]) + ' # ' + ' '.join(_fr(v) for v in o[2]))
+    return 'ok ; ' + ' ; '.join(res)
+
+
+def _psy_want(inp):
+    """Brute force: on-chart hours per cell (rh row, temperature column) and their indices."""
+    mn, mx = inp['min'], inp['max']
+    want = {}
+    for i, (t, r) in enumerate(zip(inp['t'], inp['rh'])):
+        if mn <= t <= mx:
+            x = min(int(math.floor(t - mn)), mx - mn - 1)
+            y = min(max(int(math.floor(r / 5.0)), 0), 19)
+            want.setdefault((y, x), []).append(i)
+    return want
+
+
+def _check_phist(inp):
+    sig = {}
+    want = _psy_want(inp)
+    try:
+        ch = _build_psy(inp)
+    except AssertionError:
+        return None if not want else {'required': 'a chart', 'observed': 'AssertionError',
+                                      'sig': dict(sig, clause='builds')}
+    cells = sorted(want)
+    nT = inp['max'] - inp['min']
+    outs = _ph_run(inp, ch)
+    nh = len(inp['t'])
+    for k, (op, o) in enumerate(zip(inp['ops'], outs)):
+        where = 'step %d %s: ' % (k, json.dumps(op)[:80])
+        if op[0] == 'data' and len(op[1]) != nh:
+            if o[0] != 'err':
+                return {'required': where + 'refused (collection of another length)', 'observed': 'accepted',
+                        'sig': dict(sig, clause='h_data_accepts')}
+            continue
+        if o[0] == 'err':
+            return {'required': where + 'a value', 'observed': o[2], 'sig': dict(sig, clause='h_read_raises',
+                                                                                 read=op[0], error=o[1])}
+        if op[0] == 'matrix':
+            for i, cnt in enumerate(o[1]):
+                e = len(want.get((i // nT, i % nT), []))
+                if cnt != e:
+                    return {'required': where + 'cell rh row %d, t column %d counts %d hours' % (i // nT, i % nT, e),
+                            'observed': cnt, 'sig': dict(sig, clause='h_cell')}
+        elif op[0] == 'hours':
+            e = [len(want[c]) for c in cells]
+            if list(o[1]) != e:
+                return {'required': where + 'hours per non-empty cell %s' % e[:30], 'observed': str(list(o[1])[:30]),
+                        'sig': dict(sig, clause='h_hours')}
+        elif op[0] == 'mesh':
+            if list(o[1]) != cells:
+                return {'required': where + 'one face per non-empty cell', 'observed': '%d faces' % len(o[1]),
+                        'sig': dict(sig, clause='h_faces')}
+        elif op[0] == 'data':
+            if list(o[1]) != cells:
+                return {'required': where + 'one face per non-empty cell', 'observed': '%d faces' % len(o[1]),
+                        'sig': dict(sig, clause='h_data_faces')}
+            for c, m in zip(cells, o[2]):
+                e = sum(op[1][i] for i in want[c]) / float(len(want[c]))
+                if abs(e - m) > 1e-9 * (1 + abs(e)):
+                    return {'required': where + 'cell %s shows the mean %r of its own hours' % (c, e),
+                            'observed': repr(m), 'sig': dict(sig, clause='h_data_mean')}
+    return None
+
+
+# ---- HourlyPlot histories (no model state: every read must equal the pure `hp` model answer)
+
+HP_READS = ('mesh', 'values', 'colors', 'mesh3d')
+HP_TOUCH = ('hour_labels', 'hour_lines2d', 'month_labels', 'month_lines2d', 'title', 'legend', 'border')
+
+
+def _hh_case(rng, base=None):
+    c = base
+    while c is None:                              # small grids: a history reads the mesh several times
+        c = _hp_case(rng)
+        ap = c['ap']
+        if len(period_moys(ap)) > 900:
+            c = None
+    c = dict(c)
+    n = len(period_moys(c['ap'])) if c['cont'] else len(c['moys'])
+    ops = []
+    for _ in range(rng.choice([2, 4, 6])):
+        q = rng.random()
+        if q < 0.4:
+            ops.append(['read', rng.choice(HP_READS)])
+        elif q < 0.55:
+            ops.append(['touch', rng.choice(HP_TOUCH)])
+        elif q < 0.75:
+            ops.append(['legend', 'colors', rng.randrange(1, 50)])
+        elif q < 0.85:
+            ops.append(['legend', rng.choice(['min', 'max']), rng.choice([0, n - 1, -5, 2 * n, n // 2])])
+        else:
+            ops.append(['legend', rng.choice(['bad_min', 'bad_max', 'bad_colors', 'one_color']), 0])
+    sweep = [['read', r] for r in HP_READS]
+    rng.shuffle(sweep)
+    c['ops'] = ops + sweep
+    return c
+
+
+def _perm_colors(n, seed):
+    cols = _distinct_colors(max(n, 2))
+    k = seed % len(cols)
+    return cols[k:] + cols[:k]
+
+
+def _hp_touch(hp, name):
+    try:
+        if name == 'hour_labels':
+            hp.hour_labels
+        elif name == 'hour_lines2d':
+            hp.hour_lines2d
+        elif name == 'month_labels':
+            hp.month_labels
+        elif name == 'month_lines2d':
+            hp.month_lines2d
+        elif name == 'title':
+            hp.title_text
+        elif name == 'legend':
+            hp.legend.segment_colors
+        elif name == 'border':
+            hp.chart_border2d
+    except Exception:
+        pass
+
+
+def _hp_snap(hp):
+    """What the legend says at this moment: (hp, values in face order, their legend colours)."""
+    pv = list(hp.values)
+    cr = hp.legend.color_range
+    return hp, pv, [cr.color(v) for v in pv]
+
+
+def _hh_steps(inp):
+    """Run the history on one HourlyPlot; yields (op, observation) for the reads:
+    ('mesh'|'mesh3d', cells, colours, nx, ny) | ('values', list) | ('colors', list) | ('err', text)."""
+    hp = _build_hp(inp)
+    n = len(hp.data_collection.values)
+    state = {'colors': None}
+    for op in inp['ops']:
+        try:
+            if op[0] == 'touch':
+                _hp_touch(hp, op[1])
+                continue
+            if op[0] == 'legend':
+                lp = hp.legend_parameters
+                try:
+                    if op[1] == 'colors':
+                        cols = _perm_colors(n, op[2])
+                        lp.colors = cols
+                        lp.min, lp.max = None, None
+                        lp.min = 0
+                        lp.max = max(n - 1, 0) if len(cols) == n else len(cols) - 1
+                        state['colors'] = cols
+                    elif op[1] == 'min':
+                        lp.min = op[2]
+                    elif op[1] == 'max':
+                        lp.max = op[2]
+                    elif op[1] == 'bad_min':
+                        lp.min = 'a'
+                    elif op[1] == 'bad_max':
+                        lp.max = 'a'
+                    elif op[1] == 'one_color':    # a legend needs two colours: refused, nothing stored
+                        from ladybug.color import Color
+                        lp.colors = [Color(1, 2, 3)]
+                    else:
+                        lp.colors = 'abc'
+                except AssertionError:
+                    pass                           # refused by the legend parameters: nothing changed
+                if op[1] in ('min', 'max'):
+                    state['colors'] = None         # colours no longer one stop per id
+                continue
+            name = op[1]
+            if name in ('mesh', 'mesh3d'):
+                if name == 'mesh':
+                    mesh, nx, ny, cells = _hp_cells(hp, inp)
+                else:
+                    m3 = hp.colored_mesh3d
+                    bd = hp.chart_border2d
+                    nx = int(round((bd.max.x - bd.min.x) / inp['xdim']))
+                    ny = int(round((bd.max.y - bd.min.y) / inp['ydim']))
+                    cells = [(int(math.floor((c.x - inp['base'][0]) / inp['xdim'])),
+                              int(math.floor((c.y - inp['base'][1]) / inp['ydim']))) for c in m3.face_centroids]
+                    mesh = m3
+                yield op, (name, cells, list(mesh.colors), nx, ny, _hp_snap(hp), state['colors'])
+            elif name == 'values':
+                yield op, ('values', list(hp.values), _hp_snap(hp), state['colors'])
+            else:
+                yield op, ('colors', list(hp.colors), _hp_snap(hp), state['colors'])
+        except Exception as e:
+            yield op, ('err', '%s: %s' % (type(e).__name__, str(e)[:100]), type(e).__name__)
+
+
+def _hh_impl(c):
+    """Model-format answer of every mesh read of the history (they must all equal the `hp` answer)."""
+    res = []
+    for op, o in _hh_steps(c):
+        if o[0] == 'err':
+            res.append('err:' + {'AssertionError': 'assert', 'ValueError': 'value', 'IndexError': 'index'}.get(o[2], o[2]))
+        elif o[0] in ('mesh', 'mesh3d'):
+            vals = o[5][1]
+            if len(vals) != len(o[1]):
+                res.append('err:value')
+            else:
+                res.append(('ok %d %d %d ' % (o[3], o[4], len(o[1]))) +
+                           ' '.join('%d %d %d' % (cx, cy, int(v)) for (cx, cy), v in zip(o[1], vals)))
+    return res
+
+
+def _hp_want(inp, hp, ny):
+    """Cell of every value id from its own date-time and the period (stdlib arithmetic)."""
+    p = hp.analysis_period
+    dc = hp.data_collection
+    leap = p.is_leap_year
+    ndays = 366 if leap else 365
+    d0 = (datetime(_year(leap), p.st_month, p.st_day) - datetime(_year(leap), 1, 1)).days
+    step = 60 // p.timestep
+    row0 = p.st_hour * 60 if p.st_hour <= p.end_hour else 0
+    want = {}
+    for dt, v in zip(dc.datetimes, dc.values):
+        doy0 = (datetime(_year(leap), dt.month, dt.day) - datetime(_year(leap), 1, 1)).days
+        row = (dt.hour * 60 + dt.minute - row0) // step
+        if inp['rev']:
+            row = ny - 1 - row
+        want[v] = ((doy0 - d0) % ndays, row)
+    return want
+
+
+def _check_hhist(inp):
+    sig = {'cont': bool(inp['cont']), 'rev': bool(inp['rev'])}
+    try:
+        steps = list(_hh_steps(inp))
+    except Exception as e:
+        return {'required': 'a plot', 'observed': 'raises %s: %s' % (type(e).__name__, str(e)[:100]),
+                'sig': dict(sig, clause='h_builds', error=type(e).__name__)}
+    for k, (op, o) in enumerate(steps):
+        where = 'read %d %s: ' % (k, json.dumps(op))
+        if o[0] == 'err':
+            return {'required': where + 'a value', 'observed': o[1], 'sig': dict(sig, clause='h_read_raises',
+                                                                                 error=o[2])}
+        (hp, pvals, pcols), cols = o[-2], o[-1]
+        vals = list(hp.data_collection.values)
+        if o[0] in ('mesh', 'mesh3d'):
+            _, cells, colors, nx, ny = o[:5]
+            want = _hp_want(inp, hp, ny)
+            if len(cells) != len(vals):
+                return {'required': where + '%d faces' % len(vals), 'observed': '%d faces' % len(cells),
+                        'sig': dict(sig, clause='h_face_count')}
+            for j, (cell, pv, colr, ecol) in enumerate(zip(cells, pvals, colors, pcols)):
+                if pv not in want or cell != want[pv]:
+                    return {'required': where + 'value %r at cell %s' % (pv, want.get(pv)),
+                            'observed': 'face %d at cell %s' % (j, cell), 'sig': dict(sig, clause='h_cell')}
+                if colr != ecol:
+                    return {'required': where + 'legend colour of value %r: %s' % (pv, ecol),
+                            'observed': str(colr), 'sig': dict(sig, clause='h_colour')}
+                if cols is not None and len(cols) == len(vals) and 2 <= len(vals) <= 600 and \
+                        (colr.r, colr.g, colr.b) in [(c.r, c.g, c.b) for c in cols] and \
+                        (colr.r, colr.g, colr.b) != (cols[pv].r, cols[pv].g, cols[pv].b):
+                    return {'required': where + 'the colour the user assigned to value %r: %s' % (pv, cols[pv]),
+                            'observed': str(colr), 'sig': dict(sig, clause='h_colour_assigned')}
+        elif o[0] == 'values':
+            if sorted(o[1]) != sorted(vals):
+                return {'required': where + 'each value once', 'observed': str(o[1])[:120],
+                        'sig': dict(sig, clause='h_values')}
+        else:
+            if len(o[1]) != len(pvals) or any(c != e for c, e in zip(o[1], pcols)):
+                return {'required': where + 'colors[i] = legend colour of values[i]', 'observed': str(o[1])[:120],
+                        'sig': dict(sig, clause='h_colors_values')}
+    return None
+
+
 # ---------------------------------------------------------------------------------------------
 # correspondence
 
@@ -783,6 +1762,57 @@ def _correspondence(ctx):
     # psychrometric chart
     pc = [_psy_case(rng) for _ in range(ctx.n(100, 1000))]
     compare_batch(ctx, 'psych', pc, _psy_line, _psy_impl, key=lambda c: repr(c))
+    _correspondence_histories(ctx)
+
+
+def _count_history(ctx, tag, ops):
+    ctx.count(tag + ':histories')
+    ctx.count(tag + ':steps', len(ops))
+    for op in ops:
+        ctx.count('%s:%s' % (tag, op[0]))
+
+
+def _correspondence_histories(ctx):
+    """Operation histories on one object, compared step by step with the object state machines."""
+    rng = ctx.rng
+    wh = list(WRH_CORPUS) + [WRH_DEFAULT_CUT]
+    wh += [_wrh_case(rng, n) for n in (1, 2, 3, 36)]
+    wh += [_wrh_case(rng) for _ in range(ctx.n(100, 1200))]
+    wh += [_wrh_case(rng, big=True) for _ in range(ctx.n(60, 700))]
+    for c in wh:
+        _count_history(ctx, 'whist', c['ops'])
+        ctx.count('whist:refused', sum(1 for op in c['ops'] if op[0] == 'set' and _wr_model_op(op, c['speed']) in (
+            'badtype', 'other 0') or (op[0] == 'set' and _is_num(op[2]) and op[2] <= 0 and op[1].startswith('freq'))))
+    compare_numeric(ctx, 'whist', wh, _wrh_line, _wrh_impl, key=lambda c: repr(c))
+    bh = [_bh_case(rng, False) for _ in range(ctx.n(80, 800))] + [_bh_case(rng, True) for _ in range(ctx.n(60, 600))]
+    for c in bh:
+        _count_history(ctx, 'bhist', c['ops'])
+        ng = len(_bar_groups(c))
+        ctx.count('bhist:ignored index', sum(1 for op in c['ops'] if op[0] != 'read' and not -ng <= op[2] < ng))
+    compare_numeric(ctx, 'bhist', bh, _bh_line, _bh_impl, key=lambda c: repr(c))
+    ph = [_ph_case(rng) for _ in range(ctx.n(60, 600))]
+    for c in ph:
+        _count_history(ctx, 'phist', c['ops'])
+        ctx.count('phist:refused', sum(1 for op in c['ops'] if op[0] == 'data' and len(op[1]) != len(c['t'])))
+    compare_numeric(ctx, 'phist', ph, _ph_line, _ph_impl, key=lambda c: repr(c))
+    # hourly plot: every mesh read of a history must be the answer of the (stateless) model
+    hh = [_hh_case(rng, dict(c)) for c in HP_CORPUS if len(c['moys']) <= 900] + \
+        [_hh_case(rng) for _ in range(ctx.n(40, 400))]
+    lines = [_hp_line(c) for c in hh]
+    outs = ctx.driver().run(lines)
+    for c, line, mo in zip(hh, lines, outs):
+        _count_history(ctx, 'hhist', c['ops'])
+        try:
+            reads = _hh_impl(c)
+        except Exception as e:
+            reads = ['err:' + err_name(e)]
+        ctx.compared += 1
+        ctx.count('op:hhist')
+        ctx.case(('hhist', repr(c)), nontrivial=bool(reads) and not reads[0].startswith('err:'))
+        for k, io in enumerate(reads):
+            if io != mo:
+                ctx.disagree('hhist', {'case': c, 'line': line, 'read': k}, mo[:2000], io[:2000])
+                break
 
 
 # ---------------------------------------------------------------------------------------------
@@ -1069,6 +2099,306 @@ def _check_psych(inp):
     return None
 
 
+# ---- psychrometric chart: rare input classes (oracle only; the model is the SI hourly chart)
+
+PSY_VARIANTS = ('ip', 'daily', 'ts2', 'const_rh', 'const_t')
+
+
+def _psy2_case(rng, variant=None):
+    variant = variant or rng.choice(PSY_VARIANTS)
+    if variant == 'ip':
+        mn = rng.choice([0, 10, -4, 32])
+        mx = mn + rng.choice([10, 40, 70, 85])
+        n = 24
+        ts = []
+        for _ in range(n):
+            q = rng.random()
+            if q < 0.8:                           # middle of a 5/3 F cell (edges are float-accumulated)
+                k = rng.randrange(0, int((mx - mn) / (5 / 3.0)))
+                tf = mn + (k + rng.choice([0.25, 0.5, 0.75])) * (5 / 3.0)
+            else:
+                tf = rng.choice([mn - 3.3, mx + 2.2, mn + 0.4, mx - 0.4])
+            ts.append((tf - 32.0) / 1.8)
+        rhs = [rng.choice([0.0, 2.5, 47.5, 52.5, 97.5, 100.0, 99.0, 33.3]) for _ in range(n)]
+        return {'variant': variant, 'min': mn, 'max': mx, 't': ts, 'rh': rhs}
+    mn = rng.choice([-20, 0, -5, 10])
+    mx = mn + rng.choice([10, 30, 25])
+    n = {'daily': rng.choice([2, 5, 31]), 'ts2': 48}.get(variant, 24)
+
+    def temp():
+        q = rng.random()
+        return float(rng.randrange(mn - 1, mx + 2)) if q < 0.4 else \
+            rng.choice([float(mn), float(mx), mx - 2.0 ** -20]) if q < 0.5 else round(rng.uniform(mn - 2, mx + 2), 1)
+
+    def hum():
+        q = rng.random()
+        return float(rng.choice(range(0, 105, 5))) if q < 0.5 else round(rng.uniform(0, 100), 1)
+    c = {'variant': variant, 'min': mn, 'max': mx, 't': [temp() for _ in range(n)], 'rh': [hum() for _ in range(n)]}
+    if variant == 'const_rh':
+        c['rh'] = [rng.choice([0.0, 50.0, 100.0, 37.5])] * n
+    if variant == 'const_t':
+        c['t'] = [float(rng.choice([mn, mx, mn + 3.5]))] * n
+    return c
+
+
+def _build_psy2(c):
+    from ladybug.analysisperiod import AnalysisPeriod
+    from ladybug.datacollection import HourlyContinuousCollection, DailyCollection
+    from ladybug.header import Header
+    from ladybug.datatype.temperature import Temperature
+    from ladybug.datatype.fraction import RelativeHumidity
+    from ladybug.psychchart import PsychrometricChart
+    v = c['variant']
+    n = len(c['t'])
+    if v == 'daily':
+        ap = AnalysisPeriod(1, 1, 0, 2 if n > 31 else 1, n if n <= 31 else n - 31, 23)
+        t = DailyCollection(Header(Temperature(), 'C', ap), list(c['t']), list(range(1, n + 1)))
+        rh = DailyCollection(Header(RelativeHumidity(), '%', ap), list(c['rh']), list(range(1, n + 1)))
+    else:
+        ap = AnalysisPeriod(1, 1, 0, 1, 1, 23, 2 if v == 'ts2' else 1)
+        t = HourlyContinuousCollection(Header(Temperature(), 'C', ap), list(c['t']))
+        rh = HourlyContinuousCollection(Header(RelativeHumidity(), '%', ap), list(c['rh']))
+    if v == 'const_rh':
+        rh = c['rh'][0]
+    if v == 'const_t':
+        t = c['t'][0]
+    return PsychrometricChart(t, rh, 101325, None, min_temperature=c['min'], max_temperature=c['max'],
+                              use_ip=(v == 'ip'))
+
+
+def _check_psych2(inp):
+    v = inp['variant']
+    sig = {'variant': v}
+    mn, mx = inp['min'], inp['max']
+    mult = {'daily': 24.0, 'ts2': 0.5}.get(v, 1.0)
+    width = 5 / 3.0 if v == 'ip' else 1.0
+    want = {}
+    for t, r in zip(inp['t'], inp['rh']):
+        tt = t * 1.8 + 32.0 if v == 'ip' else t
+        if mn <= tt <= mx:
+            x = int(math.floor((tt - mn) / width))
+            if v != 'ip':
+                x = min(x, mx - mn - 1)
+            y = min(max(int(math.floor(r / 5.0)), 0), 19)
+            want[(y, x)] = want.get((y, x), 0) + 1
+    try:
+        ch = _build_psy2(inp)
+    except AssertionError as e:
+        return None if not want else {'required': 'a chart', 'observed': 'AssertionError %s' % str(e)[:80],
+                                      'sig': dict(sig, clause='builds')}
+    mtx = ch.time_matrix
+    for y, row in enumerate(mtx):
+        for x, cnt in enumerate(row):
+            if cnt != want.get((y, x), 0):
+                return {'required': 'cell rh row %d, temperature column %d counts %d data' % (y, x, want.get((y, x), 0)),
+                        'observed': cnt, 'sig': dict(sig, clause='cell')}
+    if sum(want.values()) != sum(sum(r) for r in mtx):
+        return {'required': '%d data on the chart' % sum(want.values()), 'observed': sum(sum(r) for r in mtx),
+                'sig': dict(sig, clause='sum')}
+    e = [want[c] * mult for c in sorted(want)]
+    hv = list(ch.hour_values)
+    if len(hv) != len(e) or any(abs(a - b) > 1e-9 for a, b in zip(hv, e)):
+        return {'required': 'hours per non-empty cell %s' % e[:20], 'observed': str(hv[:20]),
+                'sig': dict(sig, clause='hours')}
+    row_len = len(mtx[0]) + 1
+    faces = [(f[0] // row_len, f[0] % row_len) for f in ch.colored_mesh.faces]
+    if faces != sorted(want):
+        return {'required': 'one face per non-empty cell', 'observed': '%d faces' % len(faces),
+                'sig': dict(sig, clause='faces')}
+    return None
+
+
+# ---- process order: a slice of the oracle stream in fresh interpreters, in different orders
+
+_WORKER_CODE = ('import sys; sys.path.insert(0, %r); from harness.props import c17; c17._worker_main()')
+
+
+def _worker_main():
+    """Fresh interpreter: evaluate the cases of stdin in the given order, answer a JSON list."""
+    sys.path.insert(0, core.REPO)
+    data = json.load(sys.stdin)
+    real = os.dup(1)
+    devnull = os.open(os.devnull, os.O_WRONLY)
+    os.dup2(devnull, 1)
+    out = []
+    for op, inp in data['cases']:
+        try:
+            out.append(check_case(op, inp))
+        except Exception as e:
+            out.append({'required': 'oracle evaluates', 'observed': 'exception %s: %s' % (type(e).__name__, e),
+                        'sig': {'exception': type(e).__name__}})
+    sys.stdout.flush()
+    os.dup2(real, 1)
+    os.write(1, json.dumps(out, default=str).encode('utf-8'))
+
+
+def _spawn_order(cases):
+    env = dict(os.environ, LADYBUG_REPO=core.REPO)
+    p = subprocess.Popen([sys.executable, '-c', _WORKER_CODE % core.ROOT], cwd=core.ROOT, env=env,
+                         stdin=subprocess.PIPE, stdout=subprocess.PIPE, stderr=subprocess.PIPE)
+    p.stdin.write(json.dumps({'cases': cases}).encode('utf-8'))
+    p.stdin.close()
+    return p
+
+
+def _collect_order(p, n):
+    out = p.stdout.read()
+    err = p.stderr.read()
+    p.wait()
+    try:
+        res = json.loads(out.decode('utf-8'))
+        if len(res) != n:
+            raise ValueError('answered %d of %d' % (len(res), n))
+        return res
+    except Exception as e:
+        return [{'required': 'cases evaluate in a fresh interpreter',
+                 'observed': 'worker failed (%s): %s' % (e, err.decode('utf-8', 'replace')[-400:]),
+                 'sig': {'clause': 'worker'}}] + [None] * (n - 1)
+
+
+def _run_order(cases):
+    return _collect_order(_spawn_order(cases), len(cases))
+
+
+def _sig_key(r):
+    s = dict((r or {}).get('sig') or {})
+    s.pop('order', None)
+    return json.dumps(s, sort_keys=True, default=str)
+
+
+def _check_order(inp):
+    cases = inp['order']
+    res = _run_order(cases)
+    for k, r in enumerate(res):
+        if r:
+            sig = dict(r.get('sig') or {})
+            sig['order'] = True
+            return {'required': r.get('required'), 'observed': r.get('observed'), 'sig': sig, 'index': k,
+                    'case': cases[k]}
+    return None
+
+
+def _shrink_order(cases, k, key):
+    prefix = cases[:k]
+    last = cases[k]
+    runs = 0
+    while len(prefix) > 1 and runs < 12:
+        half = len(prefix) // 2
+        for part in (prefix[half:], prefix[:half]):
+            runs += 1
+            r = _run_order(part + [last])[-1]
+            if r and _sig_key(r) == key:
+                prefix = part
+                break
+        else:
+            break
+    return prefix + [last]
+
+
+def _rarity(case):
+    """Sort key: rare classes first (refused calls and histories, leap, wrapping, sub-hourly, overnight,
+    reversed axis, single samples, unusual direction counts, IP / daily charts)."""
+    op, inp = case
+    if op in ('whist', 'bhist', 'phist', 'hhist'):
+        refused = any(o[0] in ('set', 'legend') and (isinstance(o[-1], str) or (_is_num(o[-1]) and o[-1] <= 0))
+                      for o in inp['ops'])
+        return (0, not refused, op)
+    if op == 'hp':
+        ap = inp['ap']
+        wraps = _moy_of(ap[7], ap[0], ap[1], ap[2]) > _moy_of(ap[7], ap[3], ap[4], ap[5])
+        return (1, not ap[7], not wraps, not ap[6] > 1, not ap[2] > ap[5], not inp['rev'], len(inp['moys']) != 1)
+    if op == 'psych2':
+        return (2, inp['variant'])
+    if op == 'wrose':
+        return (3, inp['n'] in (4, 8, 16), not inp.get('sparse'))
+    if op == 'bars':
+        return (4, not inp['period'][7], not inp['daily'], not inp['stack'])
+    return (5, op)
+
+
+def _order_slice(ctx, rng):
+    out = []
+    for c in HP_CORPUS[:6]:
+        out.append(['hp', c])
+    for _ in range(14):
+        c = None
+        while c is None or len(period_moys(c['ap'])) > 1500:
+            c = _hp_case(rng)
+        out.append(['hp', c])
+        if rng.random() < 0.5:                    # the same days in the other year kind / another timestep, adjacent
+            c2 = dict(c, ap=list(c['ap']))
+            if rng.random() < 0.5 and not (c2['ap'][0] == 2 and c2['ap'][1] == 29) \
+                    and not (c2['ap'][3] == 2 and c2['ap'][4] == 29):
+                c2['ap'][7] = not c2['ap'][7]
+            else:
+                c2['ap'][6] = rng.choice([t for t in (1, 2, 4) if t != c2['ap'][6]])
+            c2['moys'] = [] if c2['cont'] else _sparse(rng, period_moys(c2['ap']))
+            if len(period_moys(c2['ap'])) <= 1500:
+                out.append(['hp', c2])
+    for _ in range(6):
+        out.append(['hhist', _hh_case(rng)])
+    for _ in range(30):
+        out.append(['hist', _hist_case(rng)])
+        out.append(['circ', _circ_case(rng)])
+    for n in (1, 2, 3, 5, 8, 16, 36, 7):
+        out.append(['wrose', _wr_case(rng, n)])
+    for c in WRH_CORPUS:
+        out.append(['whist', c])
+    for _ in range(25):
+        out.append(['whist', _wrh_case(rng, big=rng.random() < 0.4)])
+    for _ in range(12):
+        out.append(['bars', _bars_case(rng, rng.random() < 0.5)])
+        out.append(['bhist', _bh_case(rng, rng.random() < 0.5)])
+    for _ in range(10):
+        out.append(['psych', _psy_case(rng)])
+        out.append(['phist', _ph_case(rng)])
+    for v in PSY_VARIANTS:
+        out.append(['psych2', _psy2_case(rng, v)])
+        out.append(['psych2', _psy2_case(rng, v)])
+    return out
+
+
+def _oracle_orders(ctx):
+    rng = ctx.rng
+    cases = _order_slice(ctx, rng)
+    orders = []
+    rare_first = sorted(cases, key=_rarity)
+    orders.append(('rare-first', rare_first))
+    orders.append(('common-first', list(reversed(rare_first))))
+    sh = list(cases)
+    rng.shuffle(sh)
+    orders.append(('shuffled', sh))
+    if not ctx.quick or ctx.searching:
+        sh2 = list(cases)
+        rng.shuffle(sh2)
+        orders.append(('shuffled-2', sh2))
+    procs = [(name, order, _spawn_order(order)) for name, order in orders]
+    for name, order, p in procs:
+        res = _collect_order(p, len(order))
+        ctx.count('order:' + name, len(order))
+        for k, r in enumerate(res):
+            ctx.count('oracle:order-case')
+            ctx.case(('order', name, k))
+            if not r:
+                continue
+            if len(ctx.failures) >= 200:
+                break
+            key = _sig_key(r)
+            alone = _run_order([order[k]])[0]
+            if alone and _sig_key(alone) == key:
+                op1, inp1 = order[k]              # fails in a fresh interpreter on its own: the plain case
+                ctx.fail(op1, inp1, r.get('required'), r.get('observed'), r.get('sig'))
+                if ctx.failures and ctx.failures[-1]['input'] is inp1:
+                    ctx.failures[-1]['confirmed'] = True
+            else:
+                small = _shrink_order(order, k, key)
+                sig = dict(r.get('sig') or {})
+                sig['order'] = True
+                ctx.fail('order', {'order': small, 'name': name}, r.get('required'), r.get('observed'), sig)
+                if ctx.failures and ctx.failures[-1]['op'] == 'order':
+                    ctx.failures[-1]['confirmed'] = True
+
+
 def check_case(op, inp):
     if op == 'hp':
         return _check_hp(inp)
@@ -1082,6 +2412,18 @@ def check_case(op, inp):
         return _check_bars(inp)
     if op == 'psych':
         return _check_psych(inp)
+    if op == 'psych2':
+        return _check_psych2(inp)
+    if op == 'whist':
+        return _check_whist(inp)
+    if op == 'bhist':
+        return _check_bhist(inp)
+    if op == 'phist':
+        return _check_phist(inp)
+    if op == 'hhist':
+        return _check_hhist(inp)
+    if op == 'order':
+        return _check_order(inp)
     raise ValueError('unknown op ' + op)
 
 
@@ -1119,8 +2461,105 @@ def _oracle_cases(ctx):
         yield 'bars', _bars_case(rng, True)
     for _ in range(600 if big else 80):
         yield 'psych', _psy_case(rng)
+    for _ in range(400 if big else 60):
+        yield 'psych2', _psy2_case(rng)
+    # histories on one object
+    for c in WRH_CORPUS:
+        yield 'whist', c
+    yield 'whist', WRH_DEFAULT_CUT
+    for n in (1, 2, 3, 36):
+        yield 'whist', _wrh_case(rng, n)
+    for _ in range(1200 if big else 150):
+        yield 'whist', _wrh_case(rng, big=rng.random() < 0.4)
+    for _ in range(700 if big else 90):
+        yield 'bhist', _bh_case(rng, rng.random() < 0.45)
+    for _ in range(500 if big else 60):
+        yield 'phist', _ph_case(rng)
+    for c in HP_CORPUS:
+        if len(c['moys']) <= 900:
+            yield 'hhist', _hh_case(rng, dict(c))
+    for _ in range(300 if big else 40):
+        yield 'hhist', _hh_case(rng)
+
+
+def _count_strata(ctx, op, inp):
+    if op == 'hp':
+        ctx.count('stratum:hp ts=%d' % inp['ap'][6])
+        if inp['ap'][7]:
+            ctx.count('stratum:hp leap')
+        if not inp['cont'] and len(inp['moys']) == 1:
+            ctx.count('stratum:hp single datum')
+        if inp.get('imm'):
+            ctx.count('stratum:hp immutable input')
+    elif op in ('wrose', 'whist'):
+        if inp.get('sparse'):
+            ctx.count('stratum:wrose discontinuous (%d samples)' % len(inp['dirs']))
+        if all(not v > 1e-10 for v in inp['spd']) and inp['speed']:
+            ctx.count('stratum:wrose all calm')
+    elif op == 'psych2':
+        ctx.count('stratum:psych ' + inp['variant'])
+    elif op == 'bars' and any(lo == hi for lo, hi in inp['ranges'].values()):
+        ctx.count('stratum:bars zero axis range')
+
+
+_FAMILY = {'hp': 'hp', 'hhist': 'hp', 'hist': 'wr', 'circ': 'wr', 'wrose': 'wr', 'whist': 'wr', 'bars': 'bars',
+           'bhist': 'bars', 'psych': 'psy', 'psych2': 'psy', 'phist': 'psy'}
+
+
+def _confirm_failures(ctx, trail):
+    """The failure that becomes the replay must fail when replayed.  Plain cases are replayed on their own
+    in a fresh interpreter; a case that fails only after the cases evaluated before it in this process
+    (state kept at module / class level) is replaced by that (shrunk) order; a failure that cannot be
+    reproduced either way is dropped (the fresh-interpreter orders that follow look for it again)."""
+    try:
+        known = core.load_known(PROP)
+    except Exception:
+        known = []
+    checked, lost = 0, set()
+    for f in list(ctx.failures):
+        if any(core.matches(f['sig'], k) for k in known) or f['op'] == 'order':
+            continue
+        if checked >= 5:
+            break
+        checked += 1
+        case = [f['op'], f['input']]
+        if _run_order([case])[0]:
+            f['confirmed'] = True
+            break
+        idx = next((i for i, c in enumerate(trail) if c[0] == f['op'] and c[1] is f['input']), len(trail))
+        fam = _FAMILY.get(f['op'])
+        prefix = [c for c in trail[:idx] if _FAMILY.get(c[0]) == fam][-400:]
+        r = _run_order(prefix + [case])[-1]
+        if r:
+            small = _shrink_order(prefix + [case], len(prefix), _sig_key(r))
+            sig = dict(r.get('sig') or {})
+            sig.update(op='order', order=True)
+            f.update(op='order', input={'order': small, 'name': 'in-process'}, required=r.get('required'),
+                     observed=r.get('observed'), sig=sig, confirmed=True)
+            break
+        lost.add(fam)
+        ctx.notes.append('a %s failure was not reproduced in a fresh interpreter (state left by earlier calls '
+                         'in this process); dropped in favour of the fresh-interpreter orders' % f['op'])
+        ctx.failures.remove(f)
+    else:
+        return
+    if lost and not any(f.get('confirmed') for f in ctx.failures):
+        ctx.failures[:] = [f for f in ctx.failures if _FAMILY.get(f['op']) not in lost or
+                           any(core.matches(f['sig'], k) for k in known)]
+    ctx.failures.sort(key=lambda f: 0 if f.get('confirmed') else 1)
 
 
 def oracle(ctx):
+    trail = []
+
+    def stream():
+        for op, inp in _oracle_cases(ctx):
+            _count_strata(ctx, op, inp)
+            trail.append([op, inp])
+            yield op, inp
     with contextlib.redirect_stdout(io.StringIO()):
-        run_oracle_cases(ctx, _oracle_cases(ctx), check_case)
+        run_oracle_cases(ctx, stream(), check_case)
+        if ctx.failures:
+            _confirm_failures(ctx, trail)
+        _oracle_orders(ctx)
+        ctx.failures.sort(key=lambda f: 0 if f.get('confirmed') else 1)
